@@ -21,6 +21,7 @@ from ..oracles import tables_ref as T
 LEVEL = "exploration"
 KF_V0 = "shipped:nuleptonsim-cdf-first-value"
 KF_I8 = "grid-fits:int8-axis"
+KF_F16 = "grid-fits:float16"
 AXIS_INT_DTYPES = [np.int16, np.int32, np.int64, np.uint8, np.uint16]
 DTYPES = [np.float32, np.float64, np.int16, np.int32, np.int64, np.uint8, np.uint16, np.int8, np.uint32]
 ALPHA = list("abcdefghijklmnopqrstuvwxyzABCDEFGHIJKLMNOPQRSTUVWXYZ0123456789_+-.:'\"\\ ")
@@ -56,7 +57,15 @@ def gen_grid(rng):
             a = a.astype(np.float32)
         elif r_ < 0.3:
             # integer axes (strictly increasing whole numbers)
-            a = np.cumsum(rng.integers(1, 5, n)).astype(AXIS_INT_DTYPES[int(rng.integers(len(AXIS_INT_DTYPES)))])
+            adt = AXIS_INT_DTYPES[int(rng.integers(len(AXIS_INT_DTYPES)))]
+            if rng.random() < 0.5:
+                a = np.cumsum(rng.integers(1, 5, n)).astype(adt)
+            else:
+                # nodes anywhere in the dtype's range: neighbouring nodes further apart than the dtype's
+                # positive range (D43: the spacing overflowed in the axis' own dtype)
+                info = np.iinfo(adt)
+                a = np.unique(np.concatenate([[info.min, info.max], rng.integers(info.min, info.max, n + 2, dtype=np.int64 if info.max <= np.iinfo(np.int64).max else np.uint64, endpoint=True)]).astype(adt))
+                a = np.sort(rng.permutation(a)[:n]) if a.size >= n else np.cumsum(rng.integers(1, 5, n)).astype(adt)
         axes.append(a)
     names = []
     for i in range(nd):
@@ -98,6 +107,28 @@ def run(ctx):
             finally:
                 if os.path.exists(f):
                     os.remove(f)
+        # second open finding's fixed witnesses: half precision through both formats (FITS has no 16-bit
+        # float: data raises KeyError('float16'), an axis comes back as float32 with the same values)
+        for fmt, ext in (("hdf5", "h5"), ("fits", "fits")):
+            for what in ("data", "axis"):
+                f = os.path.join(work, f"f16{what}.{ext}")
+                d16 = np.array([10.0, 20.5, 30.25]).astype(np.float16 if what == "data" else np.float64)
+                a16w = np.array([1.0, 2.5, 3.25]).astype(np.float16 if what == "axis" else np.float64)
+                ctx.count("roundtrip")
+                try:
+                    NssGrid(d16.copy(), [a16w.copy()], ["x"]).write(f, format=fmt)
+                    r = NssGrid.read(f, format=fmt)
+                    if not (same_array(r.data, d16) and same_array(r.axes[0], a16w)):
+                        back = np.asarray(r.axes[0] if what == "axis" else r.data)
+                        widened = fmt == "fits" and what == "axis" and back.dtype.kind == "f" and back.dtype.itemsize == 4 and np.array_equal(back.astype(np.float64), a16w.astype(np.float64)) and same_array(r.data, d16)
+                        ctx.violation(KF_F16 if widened else "roundtrip", f"{fmt} round trip of a grid with float16 {what}: reads back as {back.tolist()} ({back.dtype})", {"format": fmt, "float16": what})
+                except KeyError as e:
+                    ctx.violation(KF_F16 if (fmt == "fits" and what == "data" and "float16" in str(e)) else "roundtrip", f"{fmt} write of a grid with float16 {what} raised KeyError {e}", {"format": fmt, "float16": what})
+                except Exception as e:
+                    ctx.exception("roundtrip", f"{fmt} write/read of a grid with float16 {what} raised", e, {"format": fmt})
+                finally:
+                    if os.path.exists(f):
+                        os.remove(f)
         for gi in range(ngr):
             data, axes, names = gen_grid(rng)
             try:
@@ -165,44 +196,73 @@ def run(ctx):
                 finally:
                     if os.path.exists(f):
                         os.remove(f)
-            # ---- slicing on this grid
-            for ax_i in range(data.ndim):
-                n = data.shape[ax_i]
-                if n < 2 or np.any(np.diff(axes[ax_i]) <= 0):
-                    continue
-                for by_name in (False, True):
-                    key = names[ax_i] if by_name else ax_i
-                    for k in range(n):
-                        ctx.count("slice-node")
-                        try:
-                            s = grid_slice_interp(g, axes[ax_i][k], key)
-                            want = np.take(data, k, axis=ax_i)
-                            ok = np.array_equal(np.asarray(s.data, dtype=np.float64), want.astype(np.float64))
-                            names_ok = list(s.axis_names) == [nm for i, nm in enumerate(names) if i != ax_i]
-                            axes_ok = all(same_array(x, y) for x, y in zip(s.axes, [a for i, a in enumerate(axes) if i != ax_i]))
-                            if not (ok and names_ok and axes_ok):
-                                ctx.violation("slice-node", f"slice of a {data.dtype} grid {data.shape} along axis {key!r} at node {axes[ax_i][k]!r}: " + ("values differ from the stored sub-grid" if not ok else "remaining axes/names wrong"), {"shape": list(data.shape), "axis": ax_i, "node": k, "by_name": by_name})
-                        except Exception as e:
-                            ctx.exception("slice-node", f"slice along axis {key!r} at node {k} raised", e, {"shape": list(data.shape), "axis": ax_i, "names": names})
-                    # two coordinates anywhere between nodes and three close to (not on) a node: within
-                    # 1e-6 / 1e-9 of the bracket, where a tolerance-based "is it a node?" test would snap
-                    for t_fixed in (None, None, 1e-6, 1.0 - 1e-6, 1e-9):
-                        k = int(rng.integers(0, n - 1))
-                        t = float(rng.uniform(0, 1)) if t_fixed is None else t_fixed
-                        x = axes[ax_i][k] + t * (axes[ax_i][k + 1] - axes[ax_i][k])
-                        x = float(min(max(x, axes[ax_i][k]), axes[ax_i][k + 1]))
-                        tt = (x - float(axes[ax_i][k])) / (float(axes[ax_i][k + 1]) - float(axes[ax_i][k]))
-                        A = np.take(data, k, axis=ax_i).astype(np.float64)
-                        B = np.take(data, k + 1, axis=ax_i).astype(np.float64)
-                        want = A + tt * (B - A)
-                        ctx.count("slice-lerp")
-                        try:
-                            s = np.asarray(grid_slice_interp(g, x, key).data, dtype=np.float64)
-                            tol = 1e-12 * np.maximum(np.maximum(np.abs(A), np.abs(B)), 1e-300) + (4e-7 * np.maximum(np.abs(A), np.abs(B)) if data.dtype == np.float32 or axes[ax_i].dtype == np.float32 else 0)
-                            if s.shape != want.shape or not np.all(np.abs(s - want) <= tol):
-                                ctx.violation("slice-lerp", f"slice of a {data.dtype} grid {data.shape} along axis {key!r} at {x!r} (between nodes {k},{k+1}) is not the linear blend of the neighbouring sub-grids (max deviation {np.max(np.abs(s - want)) if s.shape == want.shape else 'shape'})", {"shape": list(data.shape), "axis": ax_i, "x": x})
-                        except Exception as e:
-                            ctx.exception("slice-lerp", f"slice along axis {key!r} at interior coordinate raised", e, {"shape": list(data.shape), "axis": ax_i})
+            # ---- slicing on this grid, and on the same grid with half-precision axes (FITS cannot carry
+            #      those, so they are not part of the file round trips)
+            variants = [(g, axes)]
+            a16 = [np.asarray(a, dtype=np.float64).astype(np.float16) for a in axes]
+            if all(np.all(np.isfinite(a)) and (a.size < 2 or np.all(np.diff(a.astype(np.float64)) > 0)) for a in a16):
+                variants.append((NssGrid(data.copy(), a16, list(names)), a16))
+            for g_s, axes_s in variants:
+                for ax_i in range(data.ndim):
+                    n = data.shape[ax_i]
+                    if n < 2 or np.any(np.diff(axes_s[ax_i]) <= 0):
+                        continue
+                    for by_name in (False, True):
+                        key = names[ax_i] if by_name else ax_i
+                        for k in range(n):
+                          for as_python in (False, True):
+                            ctx.count("slice-node")
+                            try:
+                                node = axes_s[ax_i][k]
+                                if as_python:  # the node's value as a plain Python number
+                                    node = int(node) if np.issubdtype(axes_s[ax_i].dtype, np.integer) else float(node)
+                                s = grid_slice_interp(g_s, node, key)
+                                want = np.take(data, k, axis=ax_i)
+                                ok = np.array_equal(np.asarray(s.data, dtype=np.float64), want.astype(np.float64))
+                                names_ok = list(s.axis_names) == [nm for i, nm in enumerate(names) if i != ax_i]
+                                axes_ok = all(same_array(x, y) for x, y in zip(s.axes, [a for i, a in enumerate(axes_s) if i != ax_i]))
+                                if not (ok and names_ok and axes_ok):
+                                    ctx.violation("slice-node", f"slice of a {data.dtype} grid {data.shape} along axis {key!r} at node {axes_s[ax_i][k]!r}: " + ("values differ from the stored sub-grid" if not ok else "remaining axes/names wrong"), {"shape": list(data.shape), "axis": ax_i, "node": k, "by_name": by_name})
+                            except Exception as e:
+                                ctx.exception("slice-node", f"slice along axis {key!r} at node {k} raised", e, {"shape": list(data.shape), "axis": ax_i, "names": names})
+                        # two coordinates anywhere between nodes and three close to (not on) a node: within
+                        # 1e-6 / 1e-9 of the bracket, where a tolerance-based "is it a node?" test would snap
+                        for t_fixed in (None, None, 1e-6, 1.0 - 1e-6, 1e-9):
+                            k = int(rng.integers(0, n - 1))
+                            t = float(rng.uniform(0, 1)) if t_fixed is None else t_fixed
+                            x = axes_s[ax_i][k] + t * (axes_s[ax_i][k + 1] - axes_s[ax_i][k])
+                            x = float(min(max(x, axes_s[ax_i][k]), axes_s[ax_i][k + 1]))
+                            tt = (x - float(axes_s[ax_i][k])) / (float(axes_s[ax_i][k + 1]) - float(axes_s[ax_i][k]))
+                            A = np.take(data, k, axis=ax_i).astype(np.float64)
+                            B = np.take(data, k + 1, axis=ax_i).astype(np.float64)
+                            want = A + tt * (B - A)
+                            ctx.count("slice-lerp")
+                            try:
+                                s = np.asarray(grid_slice_interp(g_s, x, key).data, dtype=np.float64)
+                                tol = 1e-12 * np.maximum(np.maximum(np.abs(A), np.abs(B)), 1e-300) + (4e-7 * np.maximum(np.abs(A), np.abs(B)) if data.dtype == np.float32 or axes_s[ax_i].dtype == np.float32 else 0)
+                                if s.shape != want.shape or not np.all(np.abs(s - want) <= tol):
+                                    ctx.violation("slice-lerp", f"slice of a {data.dtype} grid {data.shape} along axis {key!r} at {x!r} (between nodes {k},{k+1}) is not the linear blend of the neighbouring sub-grids (max deviation {np.max(np.abs(s - want)) if s.shape == want.shape else 'shape'})", {"shape": list(data.shape), "axis": ax_i, "x": x})
+                            except Exception as e:
+                                ctx.exception("slice-lerp", f"slice along axis {key!r} at interior coordinate raised", e, {"shape": list(data.shape), "axis": ax_i})
+
+            # ---- the slice follows the grid's *current* data: tables are edited in place by their users
+            #      (Taus lifts the non-positive exit probabilities), a slice taken afterwards is the stored
+            #      sub-grid as it is now (seeded C18-15: interpolator cached at the first slice)
+            if data.ndim >= 1 and data.shape[0] >= 2 and not np.any(np.diff(axes[0]) <= 0):
+                try:
+                    g2 = NssGrid(data.copy(), [a.copy() for a in axes], list(names))
+                    grid_slice_interp(g2, axes[0][0], 0)
+                    newdata = data[::-1].copy() if data.ndim else data
+                    np.asarray(g2.data)[...] = newdata
+                    ctx.count("slice-history")
+                    for k in (0, data.shape[0] - 1):
+                        got = np.asarray(grid_slice_interp(g2, axes[0][k], 0).data, dtype=np.float64)
+                        want = np.take(newdata, k, axis=0).astype(np.float64)
+                        if not np.array_equal(got, want):
+                            ctx.violation("slice-history", f"a {data.dtype} grid {data.shape} sliced, edited in place and sliced again at node {k} of axis 0: the slice is not the stored sub-grid", {"shape": list(data.shape)})
+                            break
+                except Exception as e:
+                    ctx.exception("slice-history", "slice / edit in place / slice raised", e, {"shape": list(data.shape)})
 
         # ---------------- row-wise interpolation -----------------------------------------------
         nrows = ctx.pick(20_000, 600_000)
@@ -326,7 +386,7 @@ def run(ctx):
         from .. import repotests
 
         repotests.run(ctx, "C18")
-    for m in ("roundtrip", "overwrite", "multipath", "slice-node", "slice-lerp", "row-interp", "shipped"):
+    for m in ("roundtrip", "overwrite", "multipath", "slice-node", "slice-history", "slice-lerp", "row-interp", "shipped"):
         ctx.require(m)
     return ctx.finish(
         rule="random grids (1-4 dimensions, axis lengths 1-6, 9 float/int dtypes, axis names of 1-10 printable ASCII characters incl. internal spaces, quotes, backslashes and names differing only in case) written/read in both formats; slices at every node of every axis (by index and by name) and at 2 interior coordinates; non-decreasing rows with 35 % plateau steps, queries strictly inside the range incl. exact node values; a case is a distinct grid or (row, query)",
